@@ -165,6 +165,9 @@ def r2_score_limits(ctx):
             continue
         st = [n for n in astx.walk_own(init.node) if isinstance(n, (ast.Assign, ast.AnnAssign)) and any(astx.u(t) == attr for t in (n.targets if isinstance(n, ast.Assign) else [n.target]))]
         rebound = [n for n in astx.walk_own(init.node) if isinstance(n, ast.Name) and n.id == par and isinstance(n.ctx, (ast.Store, ast.Del))]
+        # (an exact conversion, `L = Fraction(L)`, leaves the value - and every comparison with it - as it was)
+        pmi = astx.parents(init.node)
+        rebound = [n for n in rebound if not (isinstance(pmi.get(n), ast.Assign) and astx.u(pmi[n].value) == f"Fraction({par})")]
         good = len(st) == 1 and st[0].value is not None and astx.is_name(st[0].value, par) and not rebound
         ctx.check(good, init, st[0] if st else init.node, f"{attr} is the constructor's argument {par}, unconverted", "",
                   f"{attr} is not the argument {par} as given (" + (f"`{astx.u(st[0])[:60]}`" if st else "no store") + (f"; {par} is re-bound at line {rebound[0].lineno}" if rebound else "") + ")")
@@ -374,6 +377,7 @@ FAULTS = [
     ("duplicate check >= ", [(PP, "            if not len(set(candidates)) == len(candidates):", "            if len(set(candidates)) > len(candidates):")], "C20.R5"),
 ]
 BENIGN = [
+    ("rating limit converted exactly", [(RT, "        self.m = m\n        if L <= 0:", "        self.m = m\n        L = Fraction(L)\n        if L <= 0:")]),
     ("m <= 0 as m < 1", [(STV, "if m <= 0 or m > len(profile.candidates):", "if m < 1 or len(profile.candidates) < m:")]),
     ("alaska reordered tests", [(AK, "        if m_1 <= 0:\n            raise ValueError(\"m_1 must be positive.\")\n        elif m_2 <= 0:\n            raise ValueError(\"m_2 must be positive.\")",
                                  "        if m_2 < 1:\n            raise ValueError(\"m_2 must be positive.\")\n        elif not m_1 > 0:\n            raise ValueError(\"m_1 must be positive.\")")]),
